@@ -7,7 +7,7 @@ PROPS_FILE = "props/C06.v"
 IMPL = "C06_impl.py"
 COQ_HEADER = "From Coq Require Import ZArith List. Import ListNotations.\nFrom FV Require Import base.Util model.Loop model.Stop."
 RULE = ("placed scenes (PML/PEC/periodic, plane + dipole sources with switches, field/phasor/energy detectors with arbitrary switches): "
-        "one run_fdtd vs chains of custom_fdtd_forward over random split points (incl. empty and single-step segments), re-run from the returned "
+        "one run_fdtd vs chains of custom_fdtd_forward over random split points (incl. empty and single-step segments; Python-int bounds, concrete jax-array bounds and a jitted runner with traced bounds), re-run from the returned "
         "arrays, reset(); model: step counters of every segment; predicate: fields, psi and detector states equal to 1e-12 relative")
 ASSUMPTIONS = ["field values are compared between implementation runs (predicate); the per-step update itself is modelled in C01/C02",
                "the recording-state retention of reset() is not exercised"]
@@ -57,7 +57,7 @@ def coq_expr(case, out):
         return "false"
     T = out["T"]
     parts = []
-    for sp in out["splits"]:
+    for sp in out["splits"] + out.get("array_splits", []):
         # model: fold run_between over the end points on the counter state
         ends = core.lst(sp["pts"], zlit)
         exp = core.lst(sp["ts"], zlit)
@@ -70,11 +70,11 @@ def coq_expr(case, out):
 def predicate(case, out):
     if "error" in out:
         return ("driver-error", out["error"])
-    tol = 1e-12
-    for sp in out["splits"] + [dict(out["rerun"], pts="rerun")]:
+    for sp in out["splits"] + out.get("array_splits", []) + [dict(out["rerun"], pts="rerun")]:
+        tol = 1e-12 if sp.get("mode") != "traced" else 1e-9      # a jitted runner fuses differently: round-off only
         bad = sp["E"] > tol * out["scale"] or sp["H"] > tol * out["scale"] or sp["psi"] > tol * out["scale"] or sp["det"] > tol * out["dscale"]
         if bad or (sp.get("ts") and sp["ts"][-1] != out["T"]):
-            return (f"split-differs:T={out['T']};pts={sp['pts']}", f"state after split/re-run {sp} differs from the single run (scale {out['scale']:.3e}, det {out['dscale']:.3e})")
+            return (f"split-differs:T={out['T']};pts={sp['pts']};mode={sp.get('mode', 'int')}", f"state after split/re-run {sp} differs from the single run (scale {out['scale']:.3e}, det {out['dscale']:.3e})")
     if out["reset"]["dynamic_maxabs"] != 0.0 or out["reset"]["materials_diff"] != 0.0:
         return ("reset-wrong", f"reset left {out['reset']}")
     return None
